@@ -326,3 +326,15 @@ def gen_program(rng, gen, n=None, length=None, small=True, allow=None, prefix=Tr
 
 def spec_accepts(spec, okset):
     return all(c["op"] in okset for c in spec["cmds"])
+
+
+def pure_prefix(rng, n):
+    """Gates-only entangling prefix from vacuum: keeps the Fock backend's pure (ket) representation."""
+    pre = []
+    for m in range(n):
+        pre.append({"op": "Dgate", "p": [float(rng.uniform(0.05, 0.3)), float(rng.uniform(0, 6.28))], "m": [m], "dag": False})
+        pre.append({"op": "Sgate", "p": [float(rng.uniform(-0.2, 0.2)), float(rng.uniform(0, 6.28))], "m": [m], "dag": False})
+    for _ in range(n - 1):
+        a, b = (int(x) for x in rng.choice(n, 2, replace=False))
+        pre.append({"op": "BSgate", "p": [float(rng.uniform(0.3, 1.2)), float(rng.uniform(0, 6.28))], "m": [a, b], "dag": False})
+    return pre
